@@ -291,7 +291,7 @@ def run_agent_running(eng, p):
     eng.notes["outcome"] = {"log": [(k, v if k != "post" else v[:3]) for k, v in log]}
     posted = [v for k, v in log if k == "post"]
     handled = [v for k, v in log if k == "handle"]
-    eng.prove(state["down"] and not agent._running, "agent loop ended without a shutdown request", detail=str(log))
+    eng.prove(state["down"] and not agent.is_running, "agent loop ended without a shutdown request", detail=str(log))
     eng.prove(sorted(handled) == [v[2] for v in posted], "clean shutdown did not handle every queued message exactly once",
               detail=str(eng.notes["outcome"]))
     remaining = []
